@@ -253,6 +253,7 @@ func c02(c *Ctx) {
 			good = false
 		} else {
 			var cbVar types.Object
+			direct := false
 			for _, f := range mx.All {
 				if mx.Outer(f) != rc {
 					continue
@@ -265,12 +266,22 @@ func c02(c *Ctx) {
 					if f.Lit != nil {
 						// the literal must be the callback
 						par := mx.Parent[f.Lit]
+						handed := false
 						inspectNoLit(par.Body(), func(m ast.Node) bool {
 							if as, ok := m.(*ast.AssignStmt); ok && len(as.Rhs) == 1 && unparen(as.Rhs[0]) == ast.Expr(f.Lit) {
 								cbVar = objOf(minfo, as.Lhs[0])
+								handed = true
+							}
+							// … or the literal is handed to addMultiCallback where it stands
+							if call, ok := m.(*ast.CallExpr); ok && callToDecl(minfo, addMC)(call) && len(call.Args) == 1 && unparen(call.Args[0]) == ast.Expr(f.Lit) {
+								direct = true
+								handed = true
 							}
 							return true
 						})
+						if !handed {
+							good = false
+						}
 						return true
 					}
 					use, ctx := classifyUseIdent(f, id)
@@ -284,7 +295,7 @@ func c02(c *Ctx) {
 				})
 			}
 			if cbVar == nil {
-				good = false
+				good = good && direct
 			} else {
 				n := 0
 				for _, f := range mx.All {
